@@ -1135,6 +1135,27 @@ def check_C19(tier, seed, replay=None):
         return len(outs), sorted(rcs)
     res = P.parallel(runk, jobs, workers=16)
     nviol = 0
+    # the file named by -o next to other files of the same package: what is in that directory is not an input of the generation
+    # (the import pass must not consult the neighbours: a name like rand has several candidates)
+    dd = os.path.join(d, "dice")
+    os.makedirs(dd)
+    with open(os.path.join(dd, "helper.go"), "w") as f:
+        f.write("package main\n\nimport \"math/rand\"\n\nfunc roll() int { return rand.Intn(6) }\n")
+    dpeg = os.path.join(d, "dice.peg")
+    with open(dpeg, "w") as f:
+        f.write("{\npackage main\n}\nA <- 'a' { return rand.Float64() + float64(roll()), nil }\n")
+    p1 = subprocess.run([pigeon, dpeg], stdout=subprocess.PIPE, stderr=subprocess.PIPE, env=P.ENV, timeout=120)
+    p2 = subprocess.run([pigeon, "-o", os.path.join(dd, "dice.go"), dpeg], stdout=subprocess.PIPE, stderr=subprocess.PIPE, env=P.ENV, timeout=120)
+    got = open(os.path.join(dd, "dice.go"), "rb").read() if os.path.exists(os.path.join(dd, "dice.go")) else b""
+    if p1.returncode != p2.returncode or (p1.returncode == 0 and got != p1.stdout):
+        nviol += 1
+        rd = os.path.join(P.VERIF, "replays", "C19")
+        os.makedirs(rd, exist_ok=True)
+        rp = os.path.join(rd, "neighbours.json")
+        json.dump(dict(property="C19", grammar=open(dpeg).read(), verdict="the generated file depends on the other files of the output directory",
+                       stdout_imports=[l for l in p1.stdout.decode(errors="replace").splitlines() if "rand" in l][:3],
+                       file_imports=[l for l in got.decode(errors="replace").splitlines() if "rand" in l][:3]), open(rp, "w"), indent=1)
+        run.violation(rp, "output depends on the neighbours of the -o file")
     for (g, pth, fl), (nd, rcs) in zip(jobs, res):
         if nd > 1:
             nviol += 1
